@@ -261,19 +261,32 @@ class LineScheduler:
             self.cv.notify_all()
 
 
+LINE_BUDGET = 4000
+
+
 def run_lines(calls, turns):
     n = len(calls)
     sch = LineScheduler(n, turns)
     outs = [None] * n
 
     def tracer_for(me):
+        budget = [LINE_BUDGET]
+
         def local(frame, event, arg):
+            if budget[0] <= 0:
+                return None
             if event == "line":
+                budget[0] -= 1
+                if budget[0] <= 0:
+                    # a call that runs on and on (building a big table, say): stop scheduling it line by
+                    # line, let it and everybody else run freely from here on
+                    sch.finish(me)
+                    return None
                 sch.line(me)
             return local
 
         def glob(frame, event, arg):
-            if frame.f_code.co_filename.startswith(PKG_PREFIX):
+            if budget[0] > 0 and frame.f_code.co_filename.startswith(PKG_PREFIX):
                 return local
             return None
         return glob
